@@ -2,7 +2,7 @@
 # Builds /verif/toolchain: a fake toolchain root (symlinks to the real `nightly` + locally generated
 # std/core/alloc rustdoc JSON, which the `rust-docs-json` component would provide) and a `rustup` shim.
 set -eu
-TC=/verif/toolchain
+TC=${TC:-/verif/toolchain}
 REAL=$(rustup which --toolchain nightly cargo)      # .../toolchains/nightly-.../bin/cargo
 REAL_ROOT=$(dirname "$(dirname "$REAL")")
 REAL_RUSTUP=$(command -v rustup)
